@@ -210,6 +210,16 @@ def vc_dict(it=(), **kw):
     return builtins.dict(it, **kw)
 
 
+def _dict_fromkeys(keys, value=None):
+    if hasattr(keys, '__vc_loop__') or type(keys).__name__ == 'SymIter':
+        from pyvc import heap
+        return heap.comp('dict', lambda k: (k, value), keys, None)
+    return builtins.dict.fromkeys(keys, value)
+
+
+vc_dict.fromkeys = _dict_fromkeys
+
+
 def vc_enumerate(it, start=0):
     if hasattr(it, '__vc_enumerate__'):
         return it.__vc_enumerate__()
@@ -276,8 +286,10 @@ class DatetimeShim:
     datetime = _DatetimeClass()
 
     @staticmethod
-    def time(h=0, m=0, s=0):
-        return SymTod(3600 * h + 60 * m + s)
+    def time(hour=0, minute=0, second=0, microsecond=0, tzinfo=None):
+        if microsecond or tzinfo is not None:
+            raise Unmodelled('datetime.time with microseconds / tzinfo')
+        return SymTod(3600 * hour + 60 * minute + second)
 
     def __getattr__(self, n):
         return getattr(_datetime, n)
